@@ -144,7 +144,7 @@ func hdrGrid(o *Out, rng *rand.Rand, thorough bool, _ []string) {
 	sigs := []int{1, 2, 3}
 	maxes := []int64{2, 7, 16, 63, 64, 65, 100, 1000, 2047, 2048, 2049, 4096, 5000}
 	if thorough {
-		maxes = append(maxes, 8191, 8192, 16384, 40000, 65536, 131072)
+		maxes = append(maxes, 8191, 8192, 16384)
 		sigs = append(sigs, 4, 5)
 	}
 	for _, s := range sigs {
@@ -152,6 +152,9 @@ func hdrGrid(o *Out, rng *rand.Rand, thorough bool, _ []string) {
 			for _, mx := range maxes {
 				if mx < 2*mn || mx < 2 {
 					continue
+				}
+				if s >= 4 && mx > 2049 {
+					continue // 4 and 5 significant figures have counts arrays of 10^5..10^6 entries: small maxima only
 				}
 				o.count(fmt.Sprintf("grid-cfg-s%d", s))
 				for v := int64(-1); v <= mx+2; v++ {
